@@ -135,7 +135,7 @@ theorem pExp_render (neg : Bool) (mant : Rat) (ex : Option (Bool × Nat)) {rest 
       have hc2 : c ≠ '+' := by rintro rfl; simp at hc
       have hsp' : spanP Char.isDigit (c :: (r ++ rest)) = (digits e, rest) := by
         rw [← List.cons_append, ← hd]; exact hsp
-      simp only [renderExp, List.cons_append, List.nil_append, pExp, hd]
+      simp only [renderExp, List.cons_append, pExp, hd]
       simp [hsp', hne, natOf_digits, denoteExp, hc1, hc2]
 
 /-- an integer token -/
@@ -203,7 +203,8 @@ theorem pKeyword_none {rest : List Char} (h : okRest rest = true) :
   have hsp : spanP isIdChar ("None".toList ++ rest) = ("None".toList, rest) :=
     span_append_of_all (by decide) (okRest_not_idChar h)
   unfold pKeyword
-  simp [hsp]
+  rw [hsp]
+  simp
 
 theorem pKeyword_true {rest : List Char} (h : okRest rest = true) :
     pKeyword ("True".toList ++ rest) = some (.bool true, rest) := by
@@ -211,7 +212,8 @@ theorem pKeyword_true {rest : List Char} (h : okRest rest = true) :
     span_append_of_all (by decide) (okRest_not_idChar h)
   have : ("True".toList = "None".toList) = False := by decide
   unfold pKeyword
-  simp [hsp, this]
+  rw [hsp]
+  simp only [this, if_false, if_true]
 
 theorem pKeyword_false {rest : List Char} (h : okRest rest = true) :
     pKeyword ("False".toList ++ rest) = some (.bool false, rest) := by
@@ -220,6 +222,323 @@ theorem pKeyword_false {rest : List Char} (h : okRest rest = true) :
   have h1 : ("False".toList = "None".toList) = False := by decide
   have h2 : ("False".toList = "True".toList) = False := by decide
   unfold pKeyword
-  simp [hsp, h1, h2]
+  rw [hsp]
+  simp only [h1, h2, if_false, if_true]
+
+/-! ### dispatch of `pVal` on the first character -/
+
+theorem pVal_digit (f : Nat) {c : Char} (r : List Char) (h : c.isDigit = true) :
+    pVal (f + 1) (c :: r) = pNumber false (c :: r) := by
+  have h1 : c ≠ '[' := by rintro rfl; simp at h
+  have h2 : c ≠ '(' := by rintro rfl; simp at h
+  have h3 : c ≠ '\'' := by rintro rfl; simp at h
+  have h4 : c ≠ '"' := by rintro rfl; simp at h
+  have h5 : c ≠ '-' := by rintro rfl; simp at h
+  simp [pVal, h1, h2, h3, h4, h5, h]
+
+theorem pVal_minus (f : Nat) (r : List Char) : pVal (f + 1) ('-' :: r) = pNumber true r := by
+  simp [pVal]
+
+theorem pVal_quote (f : Nat) (dq : Bool) (r : List Char) :
+    pVal (f + 1) (quoteChar dq :: r) = pString (quoteChar dq) r := by
+  cases dq <;> simp [pVal, quoteChar]
+
+theorem pVal_keyword (f : Nat) {c : Char} (r : List Char) (h : isIdStart c = true) :
+    pVal (f + 1) (c :: r) = pKeyword (c :: r) := by
+  have h1 : c ≠ '[' := by rintro rfl; simp [isIdStart] at h
+  have h2 : c ≠ '(' := by rintro rfl; simp [isIdStart] at h
+  have h3 : c ≠ '\'' := by rintro rfl; simp [isIdStart] at h
+  have h4 : c ≠ '"' := by rintro rfl; simp [isIdStart] at h
+  have h5 : c ≠ '-' := by rintro rfl; simp [isIdStart] at h
+  have h6 : c.isDigit = false := by
+    cases hd : c.isDigit with
+    | false => rfl
+    | true =>
+      exfalso
+      have hlo : 48 ≤ c.val := by simpa [Char.isDigit] using (by simpa [Char.isDigit] using hd : c.val ≥ 48 ∧ c.val ≤ 57).1
+      have hhi : c.val ≤ 57 := (by simpa [Char.isDigit] using hd : c.val ≥ 48 ∧ c.val ≤ 57).2
+      simp only [isIdStart, Char.isAlpha, Char.isUpper, Char.isLower, Bool.or_eq_true, Bool.and_eq_true,
+        decide_eq_true_eq, beq_iff_eq] at h
+      rcases h with (⟨h, _⟩ | ⟨h, _⟩) | rfl
+      · have : (65 : UInt32) ≤ c.val := h
+        exact absurd (UInt32.le_trans this hhi) (by decide)
+      · have : (97 : UInt32) ≤ c.val := h
+        exact absurd (UInt32.le_trans this hhi) (by decide)
+      · simp at hd
+  simp [pVal, h1, h2, h3, h4, h5, h6, h]
+
+/-! ### the round trip over nested literals -/
+
+mutual
+/-- fuel that suffices to parse a literal's text -/
+def Lit.fuel : Lit → Nat
+  | .list xs => 1 + fuelAll xs
+  | .tuple xs => 1 + fuelAll xs
+  | _ => 1
+def fuelAll : List Lit → Nat
+  | [] => 0
+  | x :: xs => 1 + x.fuel + fuelAll xs
+end
+
+theorem skipBlanks_of_head {cs : List Char} (h : headNot (· == ' ') cs = true) : skipBlanks cs = cs := by
+  cases cs with
+  | nil => rfl
+  | cons c r =>
+    have hc : c ≠ ' ' := by simpa [headNot] using h
+    unfold skipBlanks
+    split
+    · next heq => cases heq; exact absurd rfl hc
+    · rfl
+
+/-- first character of a literal's text: not a blank, not a closing bracket -/
+abbrev startOk (c : Char) : Prop := c ≠ ' ' ∧ c ≠ ']' ∧ c ≠ ')'
+
+theorem startOk_digit {c : Char} (h : c.isDigit = true) : startOk c :=
+  ⟨by rintro rfl; simp at h, by rintro rfl; simp at h, by rintro rfl; simp at h⟩
+
+theorem render_head (l : Lit) : ∃ c r, render l = c :: r ∧ startOk c := by
+  cases l with
+  | none => exact ⟨'N', "one".toList, rfl, by decide⟩
+  | bool b => cases b <;> exact ⟨_, _, rfl, by decide⟩
+  | int neg n =>
+    obtain ⟨c, r, hd, hc⟩ := digits_head_isDigit n
+    cases neg with
+    | true => exact ⟨'-', digits n, by simp [render], by decide⟩
+    | false => exact ⟨c, r, by simp [render, hd], startOk_digit hc⟩
+  | dec neg ip fz fm ex =>
+    obtain ⟨c, r, hd, hc⟩ := digits_head_isDigit ip
+    cases neg with
+    | true => exact ⟨'-', digits ip ++ '.' :: fracDigits fz fm ++ renderExp ex, by simp [render], by decide⟩
+    | false => exact ⟨c, r ++ '.' :: fracDigits fz fm ++ renderExp ex, by simp [render, hd], startOk_digit hc⟩
+  | str dq body => exact ⟨quoteChar dq, body ++ [quoteChar dq], by simp [render], by cases dq <;> decide⟩
+  | list xs => exact ⟨'[', renderItems xs ']', by simp [render], by decide⟩
+  | tuple xs =>
+    match xs with
+    | [] => exact ⟨'(', [')'], by simp [render], by decide⟩
+    | [x] => exact ⟨'(', render x ++ [',', ')'], by simp [render], by decide⟩
+    | x :: y :: zs => exact ⟨'(', renderItems (x :: y :: zs) ')', by simp [render], by decide⟩
+
+theorem skipBlanks_pre_render (pre : List Char) (hpre : ∀ c ∈ pre, c = ' ') (l : Lit) (rest : List Char) :
+    skipBlanks (pre ++ (render l ++ rest)) = render l ++ rest := by
+  induction pre with
+  | nil =>
+    obtain ⟨c, r, h, hc⟩ := render_head l
+    apply skipBlanks_of_head
+    simp [h, headNot, hc.1]
+  | cons b bs ih =>
+    have : b = ' ' := hpre b (by simp)
+    subst this
+    rw [List.cons_append, skipBlanks]
+    exact ih (fun c hc => hpre c (by simp [hc]))
+
+theorem okRest_close {close : Char} (h : close = ']' ∨ close = ')') (rest : List Char) :
+    okRest (close :: rest) = true := by
+  rcases h with rfl | rfl <;> rfl
+
+theorem fuel_pos {l : Lit} {fuel : Nat} (h : l.fuel ≤ fuel) : ∃ f, fuel = f + 1 := by
+  refine ⟨fuel - 1, ?_⟩
+  cases l <;> simp [Lit.fuel] at h <;> omega
+
+mutual
+theorem pVal_render : ∀ (l : Lit), l.wf = true → ∀ (fuel : Nat) (rest : List Char),
+    l.fuel ≤ fuel → okRest rest = true → pVal fuel (render l ++ rest) = some (denote l, rest)
+  | .none, _, fuel, rest, hf, hr => by
+    obtain ⟨f, rfl⟩ := fuel_pos hf
+    have : render .none ++ rest = 'N' :: ("one".toList ++ rest) := rfl
+    rw [this, pVal_keyword f _ (by decide)]
+    exact pKeyword_none hr
+  | .bool true, _, fuel, rest, hf, hr => by
+    obtain ⟨f, rfl⟩ := fuel_pos hf
+    have : render (.bool true) ++ rest = 'T' :: ("rue".toList ++ rest) := rfl
+    rw [this, pVal_keyword f _ (by decide)]
+    exact pKeyword_true hr
+  | .bool false, _, fuel, rest, hf, hr => by
+    obtain ⟨f, rfl⟩ := fuel_pos hf
+    have : render (.bool false) ++ rest = 'F' :: ("alse".toList ++ rest) := rfl
+    rw [this, pVal_keyword f _ (by decide)]
+    exact pKeyword_false hr
+  | .int neg n, _, fuel, rest, hf, hr => by
+    obtain ⟨f, rfl⟩ := fuel_pos hf
+    cases neg with
+    | true =>
+      have : render (.int true n) ++ rest = '-' :: (digits n ++ rest) := by simp [render]
+      rw [this, pVal_minus]
+      simpa [denote] using pNumber_int true n hr
+    | false =>
+      obtain ⟨c, r, hd, hc⟩ := digits_head_isDigit n
+      have : render (.int false n) ++ rest = c :: (r ++ rest) := by simp [render, hd]
+      rw [this, pVal_digit f _ hc, ← List.cons_append, ← hd]
+      simpa [denote] using pNumber_int false n hr
+  | .dec neg ip fz fm ex, _, fuel, rest, hf, hr => by
+    obtain ⟨f, rfl⟩ := fuel_pos hf
+    cases neg with
+    | true =>
+      have : render (.dec true ip fz fm ex) ++ rest =
+          '-' :: (digits ip ++ '.' :: fracDigits fz fm ++ renderExp ex ++ rest) := by simp [render]
+      rw [this, pVal_minus]
+      simpa [denote] using pNumber_dec true ip fz fm ex hr
+    | false =>
+      obtain ⟨c, r, hd, hc⟩ := digits_head_isDigit ip
+      have : render (.dec false ip fz fm ex) ++ rest =
+          c :: (r ++ '.' :: fracDigits fz fm ++ renderExp ex ++ rest) := by simp [render, hd]
+      rw [this, pVal_digit f _ hc]
+      have h2 : c :: (r ++ '.' :: fracDigits fz fm ++ renderExp ex ++ rest) =
+          digits ip ++ '.' :: fracDigits fz fm ++ renderExp ex ++ rest := by simp [hd]
+      rw [h2]
+      simpa [denote] using pNumber_dec false ip fz fm ex hr
+  | .str dq body, hwf, fuel, rest, hf, hr => by
+    obtain ⟨f, rfl⟩ := fuel_pos hf
+    have : render (.str dq body) ++ rest = quoteChar dq :: (body ++ quoteChar dq :: rest) := by simp [render]
+    rw [this, pVal_quote]
+    simpa [denote] using pString_render dq body rest (by simpa [Lit.wf] using hwf)
+  | .list [], _, fuel, rest, hf, hr => by
+    obtain ⟨f, rfl⟩ := fuel_pos hf
+    simp [render, renderItems, pVal, denote, denoteAll]
+  | .list (x :: xs), hwf, fuel, rest, hf, hr => by
+    obtain ⟨f, rfl⟩ := fuel_pos hf
+    have hf' : fuelAll (x :: xs) ≤ f := by simp only [Lit.fuel] at hf; omega
+    have hit := pItems_render (x :: xs) (by simp) (by simpa [Lit.wf] using hwf) f ']' rest []
+      (by simp) hf' (Or.inl rfl)
+    obtain ⟨c, r, h, hc⟩ := render_head x
+    have hshape : ∃ r0, renderItems (x :: xs) ']' ++ rest = c :: r0 := by
+      cases xs with
+      | nil => exact ⟨r ++ ']' :: rest, by simp [renderItems, h]⟩
+      | cons y ys => exact ⟨r ++ ',' :: ' ' :: (renderItems (y :: ys) ']' ++ rest), by simp [renderItems, h]⟩
+    obtain ⟨r0, hr0⟩ := hshape
+    have hrender : render (.list (x :: xs)) ++ rest = '[' :: (renderItems (x :: xs) ']' ++ rest) := by
+      simp [render]
+    rw [hrender]
+    simp only [List.nil_append] at hit
+    unfold pVal
+    simp only [if_true]
+    rw [hr0] at hit ⊢
+    split
+    · next heq => cases heq; exact absurd rfl hc.2.1
+    · rw [hit]; simp [denote]
+  | .tuple [], _, fuel, rest, hf, hr => by
+    obtain ⟨f, rfl⟩ := fuel_pos hf
+    simp [render, pVal, denote, denoteAll]
+  | .tuple [x], hwf, fuel, rest, hf, hr => by
+    obtain ⟨f, rfl⟩ := fuel_pos hf
+    have hwx : x.wf = true := by simpa [Lit.wf, wfAll] using hwf
+    have hfx : x.fuel ≤ f := by simp only [Lit.fuel, fuelAll] at hf; omega
+    have hx := pVal_render x hwx f (',' :: ')' :: rest) hfx rfl
+    obtain ⟨c, r, h, hc⟩ := render_head x
+    have hrender : render (.tuple [x]) ++ rest = '(' :: (render x ++ ',' :: ')' :: rest) := by
+      simp [render]
+    rw [hrender]
+    have hsk := skipBlanks_pre_render [] (by simp) x (',' :: ')' :: rest)
+    simp only [List.nil_append] at hsk
+    unfold pVal
+    have e1 : ('(' = '[') = False := by decide
+    simp only [e1, if_false, if_true]
+    rw [h] at hsk hx ⊢
+    simp only [List.cons_append] at hsk hx ⊢
+    split
+    · next heq => cases heq; exact absurd rfl hc.2.2
+    · rw [hsk, hx]; simp [denote, denoteAll]
+  | .tuple (x :: y :: zs), hwf, fuel, rest, hf, hr => by
+    obtain ⟨f, rfl⟩ := fuel_pos hf
+    have hw : x.wf = true ∧ wfAll (y :: zs) = true := by simpa [Lit.wf, wfAll, Bool.and_eq_true] using hwf
+    have hfx : x.fuel ≤ f := by simp only [Lit.fuel, fuelAll] at hf; omega
+    have hfy : fuelAll (y :: zs) ≤ f := by simp only [Lit.fuel, fuelAll] at hf ⊢; omega
+    have hx := pVal_render x hw.1 f (',' :: ' ' :: (renderItems (y :: zs) ')' ++ rest)) hfx rfl
+    have hit := pItems_render (y :: zs) (by simp) hw.2 f ')' rest [' '] (by simp) hfy (Or.inr rfl)
+    obtain ⟨c, r, h, hc⟩ := render_head x
+    have hrender : render (.tuple (x :: y :: zs)) ++ rest =
+        '(' :: (render x ++ ',' :: ' ' :: (renderItems (y :: zs) ')' ++ rest)) := by
+      simp [render, renderItems]
+    rw [hrender]
+    have hsk := skipBlanks_pre_render [] (by simp) x (',' :: ' ' :: (renderItems (y :: zs) ')' ++ rest))
+    simp only [List.nil_append] at hsk
+    unfold pVal
+    have e1 : ('(' = '[') = False := by decide
+    simp only [e1, if_false, if_true]
+    rw [h] at hsk hx ⊢
+    simp only [List.cons_append] at hsk hx hit ⊢
+    split
+    · next heq => cases heq; exact absurd rfl hc.2.2
+    · rw [hsk, hx]
+      simp only [List.nil_append] at hit
+      simp [hit, denote, denoteAll]
+theorem pItems_render : ∀ (xs : List Lit), xs ≠ [] → wfAll xs = true →
+    ∀ (fuel : Nat) (close : Char) (rest pre : List Char), (∀ c ∈ pre, c = ' ') →
+    fuelAll xs ≤ fuel → (close = ']' ∨ close = ')') →
+    pItems fuel close (pre ++ (renderItems xs close ++ rest)) = some (denoteAll xs, rest)
+  | [], hne, _, _, _, _, _, _, _, _ => absurd rfl hne
+  | [x], _, hwf, fuel, close, rest, pre, hpre, hf, hc => by
+    obtain ⟨f, rfl⟩ : ∃ f, fuel = f + 1 := ⟨fuel - 1, by simp only [fuelAll] at hf; omega⟩
+    have hwx : x.wf = true := by simpa [wfAll] using hwf
+    have hfx : x.fuel ≤ f := by simp only [fuelAll] at hf; omega
+    have hx := pVal_render x hwx f (close :: rest) hfx (okRest_close hc rest)
+    have hsk := skipBlanks_pre_render pre hpre x (close :: rest)
+    have : pre ++ (renderItems [x] close ++ rest) = pre ++ (render x ++ close :: rest) := by
+      simp [renderItems]
+    rw [this]
+    unfold pItems
+    rw [hsk, hx]
+    simp [denoteAll]
+  | x :: y :: ys, _, hwf, fuel, close, rest, pre, hpre, hf, hc => by
+    obtain ⟨f, rfl⟩ : ∃ f, fuel = f + 1 := ⟨fuel - 1, by simp only [fuelAll] at hf; omega⟩
+    have hw : x.wf = true ∧ wfAll (y :: ys) = true := by simpa [wfAll, Bool.and_eq_true] using hwf
+    have hfx : x.fuel ≤ f := by simp only [fuelAll] at hf; omega
+    have hfy : fuelAll (y :: ys) ≤ f := by simp only [fuelAll] at hf ⊢; omega
+    have hx := pVal_render x hw.1 f (',' :: ' ' :: (renderItems (y :: ys) close ++ rest)) hfx rfl
+    have hit := pItems_render (y :: ys) (by simp) hw.2 f close rest [' '] (by simp) hfy hc
+    have hsk := skipBlanks_pre_render pre hpre x (',' :: ' ' :: (renderItems (y :: ys) close ++ rest))
+    have : pre ++ (renderItems (x :: y :: ys) close ++ rest) =
+        pre ++ (render x ++ ',' :: ' ' :: (renderItems (y :: ys) close ++ rest)) := by
+      simp [renderItems]
+    rw [this]
+    have hcc : (',' = close) = False := by
+      rcases hc with rfl | rfl <;> decide
+    unfold pItems
+    rw [hsk, hx]
+    simp only [hcc, if_false, if_true]
+    simp only [List.cons_append, List.nil_append] at hit
+    rw [hit]
+    simp [denoteAll]
+end
+
+theorem render_length_pos (l : Lit) : 1 ≤ (render l).length := by
+  obtain ⟨c, r, h, _⟩ := render_head l
+  simp [h]
+
+mutual
+theorem fuel_le_length : ∀ (l : Lit), l.fuel ≤ (render l).length
+  | .none => by decide
+  | .bool b => by cases b <;> decide
+  | .int neg n => by simpa [Lit.fuel] using render_length_pos (.int neg n)
+  | .dec neg ip fz fm ex => by simpa [Lit.fuel] using render_length_pos (.dec neg ip fz fm ex)
+  | .str dq body => by simp [Lit.fuel, render]
+  | .list xs => by
+    have := fuelAll_le_length xs ']'
+    simp only [Lit.fuel, render, List.length_cons]; omega
+  | .tuple [] => by simp [Lit.fuel, fuelAll, render]
+  | .tuple [x] => by
+    have := fuel_le_length x
+    simp only [Lit.fuel, fuelAll, render, List.length_cons, List.length_append, List.length_nil]; omega
+  | .tuple (x :: y :: zs) => by
+    have := fuelAll_le_length (x :: y :: zs) ')'
+    simp only [Lit.fuel, render, List.length_cons]; omega
+theorem fuelAll_le_length : ∀ (xs : List Lit) (close : Char), fuelAll xs ≤ (renderItems xs close).length
+  | [], _ => by simp [fuelAll]
+  | [x], close => by
+    have := fuel_le_length x
+    simp only [fuelAll, renderItems, List.length_append, List.length_cons, List.length_nil]; omega
+  | x :: y :: ys, close => by
+    have h1 := fuel_le_length x
+    have h2 := fuelAll_le_length (y :: ys) close
+    simp only [fuelAll, renderItems, List.length_append, List.length_cons] at h2 ⊢; omega
+end
+
+theorem spanP_append (p : Char → Bool) (cs : List Char) : (spanP p cs).1 ++ (spanP p cs).2 = cs := by
+  induction cs with
+  | nil => rfl
+  | cons c r ih =>
+    unfold spanP
+    split
+    · simpa using ih
+    · rfl
 
 end PyxelModel.C08
